@@ -120,6 +120,9 @@ type Gen struct {
 	// itself, sits in the committee for an epoch, withdraws its vote, unregisters (its candidate record is dropped),
 	// then comes back - the life-cycle that exercises caches of per-candidate values across node restarts.
 	Churn neotest.SingleSigner
+	// Churn2 unregisters while it is still voted for and registers again in an otherwise QUIET epoch (no other
+	// vote-affecting transaction between the re-registration and the committee refresh).
+	Churn2 neotest.SingleSigner
 	nvar  int
 	// Stats counts generated transaction kinds.
 	Stats  map[string]int
@@ -139,6 +142,7 @@ func New(t testing.TB, net *chainkit.Net, bc *core.Blockchain, seed int64, nacc 
 	g := &Gen{T: t, Net: net, BC: bc, E: net.Executor(t, bc), R: rand.New(rand.NewSource(seed)), Cands: map[int]bool{}, kvName: map[util.Uint160]int{},
 		Stats: map[string]int{}, Weights: DefaultWeights()}
 	g.Churn = neotest.NewSingleSigner(wallet.NewAccountFromPrivateKey(chainkit.Key("acct-churn")))
+	g.Churn2 = neotest.NewSingleSigner(wallet.NewAccountFromPrivateKey(chainkit.Key("acct-churn2")))
 	for i := 0; i < nacc; i++ {
 		g.Accts = append(g.Accts, neotest.NewSingleSigner(wallet.NewAccountFromPrivateKey(chainkit.Key(fmt.Sprintf("acct-%d", i)))))
 	}
@@ -214,6 +218,8 @@ func (g *Gen) Bootstrap() []*transaction.Transaction {
 	}
 	txs = append(txs, g.tx(v, g.hash(nativenames.Gas), "transfer", g.E.Validator.ScriptHash(), g.Churn.ScriptHash(), int64(5000_00000000), nil))
 	txs = append(txs, g.tx(v, g.hash(nativenames.Neo), "transfer", g.E.Validator.ScriptHash(), g.Churn.ScriptHash(), int64(14_000_000), nil))
+	txs = append(txs, g.tx(v, g.hash(nativenames.Gas), "transfer", g.E.Validator.ScriptHash(), g.Churn2.ScriptHash(), int64(5000_00000000), nil))
+	txs = append(txs, g.tx(v, g.hash(nativenames.Neo), "transfer", g.E.Validator.ScriptHash(), g.Churn2.ScriptHash(), int64(11_000_000), nil))
 	// the committee's multisig account pays for committee-signed transactions (policy, roles)
 	txs = append(txs, g.tx(v, g.hash(nativenames.Gas), "transfer", g.E.Validator.ScriptHash(), g.E.Committee.ScriptHash(), int64(5000_00000000), nil))
 	return txs
@@ -272,6 +278,12 @@ func (g *Gen) val() []byte {
 // one produces one random transaction (or nil).
 func (g *Gen) one() *transaction.Transaction {
 	kind := g.pick()
+	if q := (g.BC.BlockHeight() + 1) % 26; q >= 19 {
+		switch kind { // quiet epoch: nothing that changes votes, balances of voters or the candidate list
+		case "vote", "reg", "unreg", "neo", "policy":
+			return nil
+		}
+	}
 	i, a := g.acct()
 	sa := []neotest.Signer{a}
 	var com []neotest.Signer
@@ -470,7 +482,17 @@ func (g *Gen) churnTx() *transaction.Transaction {
 	sc := []neotest.Signer{g.Churn}
 	pub := g.Churn.Account().PublicKey().Bytes()
 	neo := g.hash(nativenames.Neo)
+	sc2 := []neotest.Signer{g.Churn2}
+	pub2 := g.Churn2.Account().PublicKey().Bytes()
 	switch (g.BC.BlockHeight() + 1) % 26 {
+	case 5:
+		return g.tx(sc2, neo, "registerCandidate", pub2)
+	case 6:
+		return g.tx(sc2, neo, "vote", g.Churn2.ScriptHash(), pub2)
+	case 10:
+		return g.tx(sc2, neo, "unregisterCandidate", pub2) // still voted for: the record stays
+	case 21:
+		return g.tx(sc2, neo, "registerCandidate", pub2) // quiet epoch: nothing else touches votes until the refresh
 	case 3, 17:
 		g.Stats["churn"]++
 		return g.tx(sc, neo, "registerCandidate", pub)
